@@ -514,3 +514,32 @@ func VerifC01_Housekeep() {
 		vnd.Assert(ok0, "C01.housekeep.current-epoch-kept")
 	}
 }
+
+// VerifC16_AttestOddDuties: duties with a position outside the committee, an
+// empty committee or duplicated validators never crash attesting.
+func VerifC16_AttestOddDuties() {
+	optValidData, optEpochPresent, optNoMissing = true, true, true
+	n := vnd.IntRange("n", 1, 2)
+	d := &ndDutyInfo{sizes: map[phase0.CommitteeIndex]uint64{}}
+	d.slot = phase0.Slot(vnd.U64("duty.slot"))
+	vnd.Assume(uint64(d.slot) < 1<<40)
+	sizes := []uint64{0, 1, 9}
+	for i := 0; i < n; i++ {
+		v := phase0.ValidatorIndex(vnd.U64("duty.validator"))
+		c := phase0.CommitteeIndex(vnd.Choose("duty.committee", 2))
+		if _, ok := d.sizes[c]; !ok {
+			d.sizes[c] = sizes[vnd.Choose("duty.csize", len(sizes))]
+		}
+		p := vnd.U64("duty.position") // not constrained by the committee size
+		vnd.Assume(p < 64)
+		d.vals = append(d.vals, v)
+		d.comms = append(d.comms, c)
+		d.pos = append(d.pos, p)
+	}
+	duty, err := attester.NewDuty(context.Background(), d.slot, 64, d.vals, d.comms, d.pos, d.sizes)
+	vnd.Assume(err == nil)
+	d.duty = duty
+	e := newAttEnv(d, false)
+	_, _ = e.s.Attest(context.Background(), d.duty)
+	vnd.Cover("C16.attest.survived")
+}
